@@ -14,8 +14,10 @@ for s in seeds:
         print(s, "PATCH DOES NOT APPLY", ap.stderr[-200:]); results[s] = {"error": "patch does not apply"}; continue
     try:
         caught, lines = [], {}
-        for pid in pids:
-            r = subprocess.run(["./check", pid, "--tier", "quick", "--no-evidence"], capture_output=True, text=True)
+        from concurrent.futures import ThreadPoolExecutor
+        with ThreadPoolExecutor(16) as ex:   # the 20 checks of one seed run side by side (each is its own process, all read the same patched tree)
+            runs = list(ex.map(lambda pid: (pid, subprocess.run(["./check", pid, "--tier", "quick", "--no-evidence"], capture_output=True, text=True)), pids))
+        for pid, r in runs:
             if r.returncode == 1:
                 caught.append(pid)
                 lines[pid] = [l.strip() for l in r.stdout.splitlines() if l.startswith("  ")][:2]
